@@ -127,6 +127,23 @@ def hashIncr (db : DB) (k f : Bytes) (d : Int) (now : Int) : Res :=
     | .error e => .err e db
     | .ok dd => .ok (.int nv) dd
 
+/-- `Tx.IncrFloat` (see `Model.strIncrFloat` for the numeric domain) -/
+def hashIncrFloat (db : DB) (k f : Bytes) (d : Dyadic) (now : Int) : Res :=
+  let cur := (hashGetRaw db k f now).getD []
+  match valueFloat cur with
+  | .invalid => .err .valueType db
+  | .unknown => .err .outOfDomain db
+  | .val x =>
+    match formatFloatDec (x + d) with
+    | none =>
+      (match hashSetKey db k now with
+       | .error e => .err e db
+       | .ok _ => .err .outOfDomain db)
+    | some txt =>
+      match hashSetTx db k f txt now with
+      | .error e => .err e db
+      | .ok dd => .ok (.score (.fin (x + d))) dd
+
 /-- `sqlScan`: no `order by`; the planner walks the `(kid, field)` index -/
 def hashScan (db : DB) (k : Bytes) (cursor : Int) (pat : Bytes) (count : Int) (now : Int) : Res :=
   let count := if count == 0 then scanPageSize else count
